@@ -24,13 +24,16 @@ def corpus():
 
 
 def gen(rng, i, tier):
-    return {"k": "grid", "g": G.rand_grid(rng), "noise": rng.randrange(1 << 30) if rng.random() < 0.7 else 0}
+    return {"k": "grid", "g": G.rand_grid(rng), "noise": rng.randrange(1 << 30) if rng.random() < 0.7 else 0, "trim": rng.choice([None, None, "end", "both"])}
 
 
 def text_of(c):
     if c["k"] == "corpus":
         return G.corpus_charts()[c["i"]][2]
-    return G.render_grid(c["g"], c["noise"])
+    t = G.render_grid(c["g"], c["noise"])
+    if c.get("trim"):          # no blank or line break after the last row (or before the first): the text ends directly on a cell or a bracket
+        t = t.rstrip() if c["trim"] == "end" else t.strip()
+    return t
 
 
 def pairs(c, n):
